@@ -5,6 +5,13 @@ V = os.path.dirname(os.path.dirname(os.path.abspath(__file__)))
 ALL = ["C%02d" % i for i in range(1, 21)]
 
 CLAIMED = {
+ "C13": dict(
+   level="exploration",
+   text="Scenarios with 1-8 concurrent producers (host threads through the session sender and through FsmExecutor::send_to_session, a sibling session sending in a foreach, delayed self-sends fired by the timer thread) x 1-60 events each, with generated sleeps, a pause inside the receiver's macrostep and optional seeded lock jitter (hook). History invariants on the receiver's mark log: every event processed exactly once, each producer's events in its send order, each event's two internal follow-ups processed before the next external event (no overlap).",
+   design="6/C13",
+   note="Schedules are sampled from what the OS scheduler, the generated sleeps and the lock jitter produce; 'all interleavings' is not enumerated (the queue is a std mpsc channel). A single observed bad history is itself the counterexample.",
+   technique="property-based concurrency testing: generated producer scenarios + history invariants (exactly-once, per-sender order, no overlap)"),
+
  "C12": dict(
    level="exploration",
    text="Hostile-content profile: conformant structure, C11's expression pool (grammar-derived, mutated, known nasty sources) in every expression position, odd host events (empty / dotted / done.invoke.* / trace.* names, unknown invoke ids, error / source / nested payloads) and 0-3 platform faults per case from 14 kinds (unknown session, malformed target, unknown invoke id, #_parent without parent, unsupported type, illegal delays, delay with #_internal, unknown scheme, four kinds of unstartable invokes). Oracle: no panic on the session thread, the final __ping is answered, the session ends on cancel in time, and each send fault's macrostep dequeues the error event the Recommendation assigns.",
@@ -118,9 +125,9 @@ def main():
         "setup_cmd": "cd harness && CARGO_NET_OFFLINE=true cargo build --offline",
         "hooks": {
             "guard": "Verif_Hooks",
-            "enable": "cargo feature Verif_Hooks of crate ruFsm (not needed by the checks built so far; no hook commit exists yet)",
+            "enable": "the harness crate depends on ruFsm with feature Verif_Hooks (harness/Cargo.toml); instrumented mutex rufsm::verif_sync::Mutex: tracking and jitter are off unless a check switches them on",
             "baseline_off_cmd": "cd /repo && cargo test --workspace --no-fail-fast --offline",
-            "source_commits": [],
+            "source_commits": ["01a12b2"],
             "add_only": True,
         },
         "engines": [{"name": "rfsm_verif", "path": "harness/", "serves_properties": sorted(CLAIMED.keys()),
